@@ -166,6 +166,11 @@ def setSig (t : Sigs α) (name : String) (s : List (Option α)) : Sigs α :=
   if t.any (·.1 == name) then t.map (fun p => if p.1 == name then (name, s) else p)
   else t ++ [(name, s)]
 
+/-- the Python object bound to `kernel` after a call: a weight list has been normalised in place -/
+def nextKernel (kern : KArg α) : Option (List α) → KArg α
+  | some l => .list l
+  | none => kern
+
 /-- the loop `for af in dim` of `filter_seq`; the weight list, if any, is the same Python object
 for every dimension, so it is re-normalised at each call. -/
 def seqLoop [BEq α] : List String → KArg α → Sigs α → Except Err (Sigs α)
@@ -177,9 +182,7 @@ def seqLoop [BEq α] : List String → KArg α → Sigs α → Except Err (Sigs 
       match execute v kern with
       | .error e => .error e
       | .ok (k', out) =>
-        let kern' := match k' with
-          | some l => KArg.list l
-          | none => kern
+        let kern' := nextKernel kern k'
         if af == "x" ∨ af == "y" ∨ af == "z" then
           -- track.operate(FILTER, af, kernel, "temp"); track.set?FromAnalyticalFeature("temp")
           seqLoop rest kern' (setSig (setSig t "temp" out) af out)
